@@ -24,6 +24,8 @@ pub struct Shard {
     pub inconclusive: Vec<String>,
     pub notes: Vec<String>,
     pub rule: String,
+    /// named sets of 64-bit signatures (unioned across shards by the driver)
+    pub sets: BTreeMap<String, BTreeSet<u64>>,
 }
 
 impl Shard {
@@ -35,6 +37,9 @@ impl Shard {
     }
     pub fn stat(&mut self, k: &str, add: u64) {
         *self.stats.entry(k.to_string()).or_insert(0) += add;
+    }
+    pub fn set_add(&mut self, k: &str, v: u64) {
+        self.sets.entry(k.to_string()).or_default().insert(v);
     }
     pub fn stat_max(&mut self, k: &str, v: u64) {
         let e = self.stats.entry(k.to_string()).or_insert(0);
@@ -96,5 +101,12 @@ impl Shard {
             .set("inconclusive", J::Arr(self.inconclusive.iter().map(|s| J::s(s.clone())).collect()))
             .set("notes", J::Arr(self.notes.iter().map(|s| J::s(s.clone())).collect()))
             .set("rule", J::s(self.rule.clone()))
+            .set("sets", {
+                let mut o = J::obj();
+                for (k, v) in &self.sets {
+                    o.put(k.clone(), J::Arr(v.iter().take(cap).map(|x| J::s(format!("{:x}", x))).collect()));
+                }
+                o
+            })
     }
 }
